@@ -647,7 +647,12 @@ impl Gen {
                 let (ish, v) = self.amts(aop, &x.shape, false);
                 let mut i = Self::amt_arr(&ish, &v);
                 if self.r.chance(1, 40) {
-                    i = self.arr(); // any first argument at all
+                    let any = self.arr(); // any first argument at all
+                    // carve-out: reshape to more than 8 axes is not generated (the implementation
+                    // refuses 99 or more axes; the documentation gives no limit)
+                    if !(aop == 3 && any.shape.iter().product::<usize>() > 8) {
+                        i = any;
+                    }
                 }
                 vec![i, x]
             }
@@ -966,6 +971,9 @@ fn finish_case(g: &mut Gen, fill: Fill, mut ops: Vec<Op>, init: Vec<A>, init_val
                     let (ish, v) = g.amts(aop, &top.shape, true);
                     break Op::Lit(aop, ish.is_empty(), v);
                 }
+            }
+            if OPS[i].0 == "OAmt:AReshape" && top.shape.iter().product::<usize>() > 8 && tries <= 20 {
+                continue; // carve-out: no reshape to more than 8 axes
             }
             if arity <= st.len() || tries > 20 {
                 // numeric-only ops on non-numeric data are kept rare
